@@ -59,7 +59,9 @@ const TRAILERS: [&[u8]; 4] = [b"", b"i1e", b"4:info", b"d4:infoi7ee"];
 /// not acceptable torrents themselves (no announce) but carry a top-level info key.
 const LEADERS: [&[u8]; 6] = [b"", b"i0e", b"4:spamle", b"d4:infod4:name5:DECOYee", b"i0ed4:infod4:name5:DECOYee", b"d4:infoi3eei5ed1:xi1ee"];
 const INFO_KEYS: [&[u8]; 2] = [b"4:info", b"04:info"];
-const V_KEYS: [&[u8]; 4] = [b"a", b"comment", b"infoo", b"z"];
+/// Keys next to `info`: before and after it in sorted order, with `info` as prefix, and ending in
+/// `:info` (a colon inside the key).
+const V_KEYS: [&[u8]; 4] = [b"a:info", b"comment", b"infoo", b"z:info"];
 
 #[derive(Clone, Debug)]
 pub struct Doc {
@@ -304,7 +306,7 @@ pub fn run(ctx: &Ctx) -> Outcome {
     o.set("distinct_nontrivial", json!(accepted));
     o.set("accepted", json!(accepted));
     o.set("rejected", json!(rejected));
-    o.set("rule", json!("documents = one top-level dictionary {announce, any subset of the keys a/comment/infoo/z each with one of 7 value shapes (the string info itself in two length spellings, a string spelled 4:info, 3 containers with a nested key spelled info), info} in 4 key orders (sorted, reversed, info first, info last) x 10 info dictionaries (canonical, reversed keys, extra keys incl. a nested info key, leading-zero string lengths, multi-file, info key inside info, and four with zero-padded lengths in front of a name / pieces string / path that ends in 'e' bytes) x info key spelled 4:info or 04:info x 4 trailers after the dictionary x (for one sibling-shape combination per key subset) 6 leaders in front of it: nothing, non-dictionary values, decoy dictionaries without announce but with a top-level info key; plus the same family without announce (every one must be rejected); plus documents with the info key twice (info values pairwise, 3 separators, both orders). All documents are distinct byte strings; non-trivial = accepted by Metainfo::from_bencode, for which the hash is compared."));
+    o.set("rule", json!("documents = one top-level dictionary {announce, any subset of the keys a:info/comment/infoo/z:info each with one of 7 value shapes (the string info itself in two length spellings, a string spelled 4:info, 3 containers with a nested key spelled info), info} in 4 key orders (sorted, reversed, info first, info last) x 10 info dictionaries (canonical, reversed keys, extra keys incl. a nested info key, leading-zero string lengths, multi-file, info key inside info, and four with zero-padded lengths in front of a name / pieces string / path that ends in 'e' bytes) x info key spelled 4:info or 04:info x 4 trailers after the dictionary x (for one sibling-shape combination per key subset) 6 leaders in front of it: nothing, non-dictionary values, decoy dictionaries without announce but with a top-level info key; plus the same family without announce (every one must be rejected); plus documents with the info key twice (info values pairwise, 3 separators, both orders). All documents are distinct byte strings; non-trivial = accepted by Metainfo::from_bencode, for which the hash is compared."));
     if (accepted as f64) < 0.4 * docs.len() as f64 {
         ctx.machinery_error(format!("vacuity: only {} of {} documents accepted", accepted, docs.len()));
     }
